@@ -1,23 +1,51 @@
 ---------------------------- MODULE MC_LexStr ----------------------------
 (* C13: what a string literal denotes.  Every literal body up to MaxLen     *)
-(* bytes over an alphabet with the backslash, the three escape letters, a   *)
-(* non-escape letter, both quotes, a blank and a raw newline, in either     *)
-(* quote style.  Vector: the program text `BEGIN { print <literal> }` and   *)
-(* the prescribed outcome (the bytes printed, or a runtime error).          *)
+(* bytes over an alphabet, in either quote style.  Vector: the program text *)
+(* `BEGIN { print <literal> }` and the prescribed outcome (the bytes        *)
+(* printed, or a runtime error).                                            *)
+(* Alphabet 1: the backslash, the three escape letters, a non-escape        *)
+(*   letter, both quotes, a blank and a raw newline.                        *)
+(* Alphabet 2: "exactly its characters" at the level of BYTES.  A literal is *)
+(*   a byte string: the backslash and two escape letters together with      *)
+(*   bytes >= 0x80 of every UTF-8 role (a 2-byte lead C3, a 3-byte lead E9, *)
+(*   the continuations A9 and 80, the never-valid FF), so that well-formed, *)
+(*   truncated and stray sequences all occur next to, between and inside    *)
+(*   escapes.                                                               *)
+(* Probes: for EVERY byte value 0..255, the byte alone, before, after,      *)
+(*   around and between each of the three escapes, and after a backslash    *)
+(*   (an error unless it is an escape letter).                              *)
 EXTENDS JqLex
-CONSTANTS MaxLen
+CONSTANTS MaxLen,      \* bound on the bodies over alphabet 1
+          MaxLen2      \* bound on the bodies over alphabet 2
 
-Alphabet == {"a", "\\", "n", "t", "z", "'", "\"", " ", NL}
+Alphabet(a) == IF a = 1 THEN {"a", "\\", "n", "t", "z", "'", "\"", " ", NL}
+               ELSE {"a", "\\", "n", "t", "C3", "A9", "E9", "80", "FF"}
+Bound(a) == IF a = 1 THEN MaxLen ELSE MaxLen2
+Alphas == {1, 2}
+
+\* the 256 byte values under their symbols (JqUtil: a 1-char string, or two hex digits)
+PrintableStr == " !\"#$%&'()*+,-./0123456789:;<=>?@ABCDEFGHIJKLMNOPQRSTUVWXYZ[\\]^_`abcdefghijklmnopqrstuvwxyz{|}~"
+HexDigits == "0123456789ABCDEF"
+HexName(n) == SubSeq(HexDigits, (n \div 16) + 1, (n \div 16) + 1) \o SubSeq(HexDigits, (n % 16) + 1, (n % 16) + 1)
+ByteSym(n) == IF n = 9 THEN TAB ELSE IF n = 10 THEN NL ELSE IF n = 13 THEN CR
+              ELSE IF n >= 32 /\ n <= 126 THEN SubSeq(PrintableStr, n - 31, n - 31) ELSE HexName(n)
+AllBytes == {ByteSym(n) : n \in 0..255}
+EscLetters == {"n", "t", "\\"}
 
 \* "anything else is an error": a backslash before every other byte
-PrintableStr == " !\"#$%&'()*+,-./0123456789:;<=>?@ABCDEFGHIJKLMNOPQRSTUVWXYZ[\\]^_`abcdefghijklmnopqrstuvwxyz{|}~"
-OtherBytes == ({SubSeq(PrintableStr, i, i) : i \in 1..Len(PrintableStr)} \cup {TAB, CR, "C3", "A9", "80", "FF"}) \ Alphabet
+OtherBytes == AllBytes \ EscLetters
+\* every byte value alone, before, after, around and between escapes
+ByteProbes == UNION {{<<b>>, <<b, "\\", e>>, <<"\\", e, b>>, <<b, "\\", e, b>>, <<"\\", e, b, "\\", e>>} : b \in AllBytes \ {"\\"}, e \in EscLetters}
 Probes == {<<"x", "\\", b, "y">> : b \in OtherBytes} \cup {<<"\\", b>> : b \in OtherBytes}
+          \cup ByteProbes
 
+Min2(n) == IF n < 2 THEN n ELSE 2
 VARIABLES body, q, done
-Init == /\ body \in SeqsUpTo(Alphabet, 2) \cup Probes /\ q = "'" /\ done = FALSE
+Init == /\ body \in UNION {SeqsUpTo(Alphabet(a), Min2(Bound(a))) : a \in Alphas} \cup Probes /\ q = "'" /\ done = FALSE
+\* (a body of two bytes of one alphabet is extended over that alphabet; shorter ones and the other probes stand as they are)
+Ext == UNION {IF Len(body) = 2 /\ body[1] \in Alphabet(a) /\ body[2] \in Alphabet(a) THEN SeqsUpTo(Alphabet(a), Bound(a) - 2) ELSE {<<>>} : a \in Alphas}
 Next == /\ ~done /\ done' = TRUE
-        /\ \E s \in (IF Len(body) < 2 \/ body \in Probes THEN {<<>>} ELSE SeqsUpTo(Alphabet, MaxLen - 2)) : body' = body \o s
+        /\ \E s \in Ext : body' = body \o s
         /\ q' \in {x \in Quotes : \A i \in 1..Len(body') : body'[i] # x}
 
 \* ---- laws
